@@ -14,7 +14,7 @@ def build():
     bins = {}
     units = []
     for variant in ("zero", "pattern"):
-        flags = ["-O1", "-g", "-DNDEBUG", "-DVSIM_PROC", "-ftrivial-auto-var-init=" + variant] + SAN + REPO_INC + tfel_inc()
+        flags = ["-O1", "-g", "-DNDEBUG", "-DTFEL_VERIF", "-DVSIM_PROC", "-ftrivial-auto-var-init=" + variant] + SAN + REPO_INC + tfel_inc()
         cflags = ["-O1", "-g", "-DNDEBUG", "-ftrivial-auto-var-init=" + variant] + SAN + REPO_INC + tfel_inc()
         us = [(os.path.join(VERIF, "harness/C30/h30.cpp"), flags), (os.path.join(VERIF, "sim/vsim.cpp"), flags)]
         us += [(os.path.join(REPO, "src/System", f), cflags if f.endswith(".c") else flags) for f in SYS]
